@@ -81,7 +81,7 @@ pub struct HStats {
 
 fn push_form<B: Sym>(c: &mut HuffmanContainer<B>, item: &[B], form: u8) -> (usize, usize) {
     let v: Vec<B> = item.to_vec();
-    match form % 7 {
+    match form % 8 {
         0 => c.push(item),
         1 => c.push(v),
         2 => c.push(&v),
@@ -92,9 +92,17 @@ fn push_form<B: Sym>(c: &mut HuffmanContainer<B>, item: &[B], form: u8) -> (usiz
             let i = tmp.push(item);
             c.push(tmp.index(i))
         }
-        _ => {
+        6 => {
             let b: <HuffmanContainer<B> as Region>::ReadItem<'_> = IntoOwned::borrow_as(&v);
             c.push(b)
+        }
+        _ => {
+            // a read item of another container in its encoded representation
+            let mut tmp = HuffmanContainer::<B>::default();
+            let _ = tmp.push(item);
+            let mut enc = HuffmanContainer::<B>::merge_regions(std::iter::once(&tmp));
+            let i = enc.push(item);
+            c.push(enc.index(i))
         }
     }
 }
@@ -229,7 +237,7 @@ pub fn run_case<B: Sym>(case: &HuffCase, st: &mut HStats) -> Result<(), String> 
             let bits: usize = item.iter().map(|s| lens[s]).sum();
             let idx = {
                 let m = &mut merged;
-                guard(|| push_form(m, &item, *form)).map_err(|p| format!("generation {g}: push #{j} of covered symbols {:?} (form {}) panicked: {p}", item, form % 7))?
+                guard(|| push_form(m, &item, *form)).map_err(|p| format!("generation {g}: push #{j} of covered symbols {:?} (form {}) panicked: {p}", item, form % 8))?
             };
             if idx.0 != cursor {
                 return Err(format!("generation {g}: push #{j} starts at bit {}, the previous item ended at bit {cursor}", idx.0));
@@ -501,7 +509,7 @@ fn simplify(case: &HuffCase) -> Vec<HuffCase> {
                     c.gens[g].items[i].0.remove(0);
                     out.push(c);
                 }
-                if it.1 % 7 != 0 {
+                if it.1 % 8 != 0 {
                     let mut c = case.clone();
                     c.gens[g].items[i].1 = 0;
                     out.push(c);
